@@ -681,7 +681,7 @@ pub fn fuzz_seeds() -> vcore::fuzzglue::Seeds {
     let dictionary = [
         "\\expandafter", "\\noexpand", "\\xb", "\\nx", "\\a", "\\b", "\\c", "\\d", "\\z", "\\notes", "\\end", "\\relax", "\\def", "\\let",
         "\\csname", "\\endcsname", "\\the", "\\number", "\\string", "\\iftrue", "\\iffalse", "\\else", "\\fi", "\\ifx", "\\ifnum", "{", "}", "#1", "%",
-        "\\count1", "\\romannumeral", "\\uppercase", "\\edef",
+        "\\count1", "\\romannumeral", "\\uppercase", "\\edef", "\\toks0={", "\\toks0={PQ}\\toks0={R}", "\\the\\toks0 ",
     ]
     .iter()
     .map(|s| s.to_string())
